@@ -1,7 +1,7 @@
 (* C01 - generated parsers build a lossless syntax tree for every input.
    Statement pins, [exact] and Print Assumptions only. *)
 From Coq Require Import List.
-From LV Require Import Cst Tree ABuild Runtime Exec Refine.
+From LV Require Import Cst Tree ABuild Runtime Exec Refine ParseEntry.
 Import ListNotations.
 
 (* the token cells of the pre-order layout of a tree are its leaves, in order *)
@@ -18,6 +18,21 @@ Proof. exact close_root_refines. Qed.
 Theorem C01_decode_flatten : forall t, decode (flatten t) = Some t.
 Proof. exact decode_flatten. Qed.
 
+(* Execution level, for every program of the command language (hence for whatever the back end
+   emits, as translated on every run), every token sequence, every predicate/assertion oracle and
+   every fuel: if the parse returns and the builder discipline was respected (ghost defined), the
+   node vector is the layout of a tree whose leaves are exactly the input tokens in input order,
+   each with its index into the span table. *)
+Theorem C01_lossless_exec : forall cx prog orc fuel r root msg st,
+  parse_entry cx prog orc fuel r root msg = XOk st ->
+  gh st <> None ->
+  exists t,
+    nodes (cstd st) = flatten t
+    /\ decode (nodes (cstd st)) = Some t
+    /\ leaves t = combine (toks cx) (seq 0 (length (toks cx))).
+Proof. exact parse_entry_tree. Qed.
+
+Print Assumptions C01_lossless_exec.
 Print Assumptions C01_tok_cells_flatten.
 Print Assumptions C01_close_root.
 Print Assumptions C01_decode_flatten.
